@@ -202,6 +202,12 @@ class CompilerState(CoderState):
     def add_statement(self, statement):
         self.block_stack[-1].add_statement(statement)
 
+    def cancel_new_refvals(self):
+        # 203000 must also take effect when the template is run: marker operators
+        # look up the new reference values of the runtime state
+        super(CompilerState, self).cancel_new_refvals()
+        self.add_statement(StateMethodCall(get_func_name()))
+
     def mark_back_reference_boundary(self):
         self.add_statement(StateMethodCall(get_func_name()))
 
